@@ -512,6 +512,7 @@ func (e *Engine) runPath(i *interpreter, fn *ssa.Function, it workItem) {
 	i.inHook = false
 	i.guardLimit = nil
 	i.guardDecLimit = nil
+	i.acc = nil
 	i.goroutinesReset()
 	end := "completed"
 	var abort *pathAbort
